@@ -109,12 +109,18 @@ def r1(ctx):
         want = ('ite', ('field', entry(I), 'promotion'),
                 ((0, ('bin', 'Add', acc, pop)), ('otherwise', ('bin', 'Add', acc, ('bin', 'Mul', pop, ('int', nprom, 'usize'))))))
         ok = False
+        four = ('int', nprom, 'usize')
+        prom = ('field', entry(I), 'promotion')
+        wants = [want]
+        for mul in (('bin', 'Mul', pop, four), ('bin', 'Mul', four, pop)):
+            wants.append(('ite', prom, ((0, ('bin', 'Add', acc, pop)), ('otherwise', ('bin', 'Add', acc, mul)))))
+            for add in (lambda a, b: ('bin', 'Add', a, b), lambda a, b: ('bin', 'Add', b, a)):
+                wants.append(add(acc, ('ite', prom, ((0, pop), ('otherwise', mul)))))
+                wants.append(add(acc, ('bin', 'Mul', pop, ('ite', prom, ((0, ('int', 1, 'usize')), ('otherwise', four))))))
         if lv is not None:
-            for leaf in eval_tree(lv, lambda c, v: None):
-                pass
             # the latch value may be wrapped by the break test; look for the promotion split anywhere
             for x in walk(lv):
-                if match(want, x) is not None:
+                if any(match(wn, x) is not None for wn in wants):
                     ok = True
         if ok and nprom == 4:
             ctx.ok(R, 'len() adds popcount(bitboard & mask), times %d for promotion entries' % nprom, w)
